@@ -16,7 +16,7 @@
 From Coq Require Import Arith List Bool ZArith QArith Qcanon.
 From QV.Core Require Import OF Sums Mat Cplx QcOF C01_HermPsd.
 From QV.Model Require Import QObj C11_Pgdb C11_Cvx.
-From QV.Proofs Require Import C11_Pgdb C11_Metric C11_PovmMetric C11_Cvx C11_Examples.
+From QV.Proofs Require Import C11_Pgdb C11_Metric C11_PovmMetric C11_Diameter C11_Cvx C11_Examples.
 Import ListNotations.
 
 (* ====================================================================== Part A *)
@@ -83,6 +83,46 @@ Theorem C11_universal_gap_partial : forall (F : OF) (n : nat) (C : @vec F -> Pro
   forall z, C z -> kle F (csub F (f x) (f z)) (cadd F (copp F (dot n (g x) y)) (cmul F mu r)).
 Proof. exact C11_Pgdb.C11_universal_gap. Qed.
 Print Assumptions C11_universal_gap_partial.
+
+(* A5v  a Hermitian positive semidefinite matrix has  sum_ij |M_ij|^2 <= (tr M)^2  (from its 2x2 principal minors; every size) *)
+Theorem C11_psd_frobenius_le_trace_sq : forall (F : OF) (n : nat) (H : cmat F), hermitian n H -> HPSD n H ->
+  kle F (C11_frob2 F n H) (cmul F (C11_rtrace F n H) (C11_rtrace F n H)).
+Proof. exact C11_Diameter.C11_psd_frobenius_le_trace_sq. Qed.
+Print Assumptions C11_psd_frobenius_le_trace_sq.
+
+(* A5w  hence the coefficient vector (orthonormal Hermitian basis) of a PSD operator has |v|^2 <= (tr)^2 *)
+Theorem C11_coefficient_norm_le_trace_sq : forall (F : OF) (d : nat) (B : nat -> cmat F) (v : rvec F),
+  basis_orthonormal d B -> basis_hermitian d B -> HPSD d (op_of_vec d B v) ->
+  kle F (C11_nrm2 F (d * d) v) (cmul F (C11_rtrace F d (op_of_vec d B v)) (C11_rtrace F d (op_of_vec d B v))).
+Proof. exact C11_Diameter.C11_coeff_norm_le_trace_sq. Qed.
+Print Assumptions C11_coefficient_norm_le_trace_sq.
+
+(* A5x  the universal gap from a NORM bound of the feasible set (|z|^2 <= R2 on C): no feasible point beats x by more than
+   -<g,y> + mu r  whenever r >= 0 and r^2 >= 4 R2 |y|^2.  No diameter hypothesis is left. *)
+Theorem C11_universal_gap_ball : forall (F : OF) (n : nat) (C : @vec F -> Prop) (P : @vec F -> @vec F)
+    (f : @vec F -> F) (g : @vec F -> @vec F) (mu R2 : F),
+  mu <> c0 F -> kle F (c0 F) mu -> C11_obtuse F n C P -> C11_first_order_convex F n f g ->
+  (forall z, C z -> kle F (C11_nrm2 F n z) R2) ->
+  forall (x : @vec F) (r : F), let y := C11_dir F P g mu x in
+  kle F (c0 F) r ->
+  kle F (cmul F (C11_nrm2 F n y) (cadd F (cmul F (cadd F (c1 F) (c1 F)) R2) (cmul F (cadd F (c1 F) (c1 F)) R2))) (cmul F r r) ->
+  forall z, C z -> kle F (csub F (f x) (f z)) (cadd F (copp F (dot n (g x) y)) (cmul F mu r)).
+Proof. exact C11_Diameter.C11_universal_gap_ball. Qed.
+Print Assumptions C11_universal_gap_ball.
+
+(* A5y  the FULL universal gap for state tomography (full parametrisation; basis orthonormal + Hermitian): the physical set is
+   { v | op_of_vec v PSD, trace one };  NO state has a loss below  f x + <g,y> - mu r  whenever r >= 0, r^2 >= 4 |y|^2.
+   (POVMs / gates: A5x with R2 = d^2; their norm bounds are not instantiated here, so A5u stays the general _partial form.) *)
+Theorem C11_universal_gap_states : forall (F : OF) (d : nat) (B : nat -> cmat F) (P : @vec F -> @vec F)
+    (f : @vec F -> F) (g : @vec F -> @vec F) (mu : F),
+  basis_orthonormal d B -> basis_hermitian d B ->
+  mu <> c0 F -> kle F (c0 F) mu -> C11_obtuse F (d * d) (C11_state_set F d B) P -> C11_first_order_convex F (d * d) f g ->
+  forall (x : @vec F) (r : F), let y := C11_dir F P g mu x in
+  kle F (c0 F) r ->
+  kle F (cmul F (C11_nrm2 F (d * d) y) (cadd F (cadd F (c1 F) (c1 F)) (cadd F (c1 F) (c1 F)))) (cmul F r r) ->
+  forall z, C11_state_set F d B z -> kle F (csub F (f x) (f z)) (cadd F (copp F (dot (d * d) (g x) y)) (cmul F mu r)).
+Proof. exact C11_Diameter.C11_universal_gap_states. Qed.
+Print Assumptions C11_universal_gap_states.
 
 (* A6 (T6)  the squared-error loss  f v = |A v + b - q|^2  with gradient 2 A^T (A v + b - q) is first-order convex (outright) *)
 Theorem C11_squared_error_convex : forall (F : OF) (m n : nat) (A : @mat F) (b q : @vec F),
@@ -325,6 +365,9 @@ Proof. exact C11_ex_L3_metric. Qed.
 Example C11_ex_povm2_metric : forall (F : OF) (D i j : nat), (i < 1 * D)%nat -> (j < 1 * D)%nat ->
   C11_metric_of F (2 * D) (C11_povm_L F D 2) i j = (if Nat.eqb i j then cadd F (c1 F) (c1 F) else c0 F).
 Proof. exact C11_PovmMetric.C11_povm2_metric_scalar. Qed.
+(* the physical set of A5y is inhabited (d = 1) *)
+Example C11_ex_state_set_inhabited : forall F : OF, C11_state_set F 1 (C11_ex_B1 F) (fun _ => c1 F).
+Proof. exact C11_ex_state_set. Qed.
 (* a basis satisfying the hypotheses of C1 / C2 over Qc: 2 qubits (d = 4), B_0 = I/2, sd = sqrt 4 = 2, c = 1/2, dd = 4 *)
 Example C11_ex_basis : @basis_0th_identity Qc_OF 4 (Q2Qc 2) (C11_ex_B Qc_OF (Q2Qc (1 # 2)))
   /\ cmul Qc_OF (Q2Qc (1 # 2)) (Q2Qc 2) = c1 Qc_OF /\ cmul Qc_OF (Q2Qc 2) (Q2Qc 2) = Q2Qc 4.
